@@ -41,6 +41,10 @@ def composites():
         ("either", [("mas", a), ("mae", b)]), ("either", [("mals", a), c, ("male", b)]), ("either", [("mas", a), b]),
         ("either", [a, ("mae", b)]), ("either", [("pb", a, [b]), ("fb", c, [b])]), ("either", [("fb", a, [b]), c]),
         ("either", [O("WordBoundary()"), a]), ("either", [("npb", a, [b]), ("nfb", c, [b])]),
+        # concatenated groups whose classes hold unbalanced parentheses (the text "(..[(..])(..[)..])" must not be read as ONE group)
+        ("concat", [("capture", ("concat", [L("f"), O("AnyFrom('(', '<')")]), None), ("capture", ("concat", [L("x"), O("AnyFrom(')', '>')")]), None)]),
+        ("concat", [("group", O("AnyFrom('(', '<')"), False), ("group", O("AnyFrom(')', '>')"), False)]),
+        ("concat", [("capture", L("("), None), ("capture", L(")"), None)]),
     ]
 
 
